@@ -498,6 +498,12 @@ where
             // calls again, yielding the runge-kutta steps.
             if self.yield_memory == O {
                 self.yield_memory -= 1;
+                // The values deque is advanced when this step is finally yielded
+                // (yield_memory == O + 1); advance the derivatives deque now so that
+                // both stay in lock-step.
+                self.prev_derivatives
+                    .push_back(self.implicit_derivs.clone());
+                self.prev_derivatives.pop_front();
                 return Err(IVPStatus::Redo);
             }
 
